@@ -59,7 +59,7 @@ class DocGen:
 
     def __init__(self, rng, *, sets=True, anchors=True, nonascii=False,
                  max_nodes=20, max_depth=4, floats=True, multiline=False,
-                 empty_containers=True, mergekeys=False):
+                 empty_containers=True, mergekeys=False, twins=0.0):
         self.rng = rng
         self.sets = sets
         self.anchors = anchors
@@ -70,6 +70,7 @@ class DocGen:
         self.multiline = multiline
         self.empty_containers = empty_containers
         self.mergekeys = mergekeys
+        self.twins = twins
         self.budget = max_nodes
         self.defined = []       # scalar anchors defined so far (doc order)
         self.map_anchors = []   # map anchors (merge-key sources)
@@ -182,7 +183,30 @@ class DocGen:
             doc = self.sequence(0)
             while not doc["i"]:
                 doc = self.sequence(0)
+        if self.twins and rng.random() < self.twins:
+            self._add_twin(doc)
         return doc
+
+    def _add_twin(self, doc):
+        """A second, distinct container with equal content (common in real
+        files: duplicated records, identical blue/green sections)."""
+        import copy
+        cands = [(s, n) for s, n in positions(doc)
+                 if s and n["t"] in ("m", "l") and n["i"]
+                 and not n.get("a") and not n.get("merge")
+                 and not any(x["t"] == "*" or x.get("a") or x.get("merge")
+                             for _p, x in positions(n))]
+        if not cands:
+            return
+        _segs, node = self.rng.choice(cands)
+        twin = copy.deepcopy(node)
+        if doc["t"] == "m":
+            used = {k["v"] for k, _v in doc["i"]}
+            key = next((k for k in ("twin", "twin2") if k not in used), None)
+            if key:
+                doc["i"].append([S(key), twin])
+        else:
+            doc["i"].append(twin)
 
 
 # ----------------------------------------------------------------------
